@@ -1,7 +1,10 @@
 import Audit.Tool
 import FluteModel.Props.C04
--- parser totality, engine `wire`, namespace Flute.Props.C04.Wire
 import FluteModel.Props.C04Wire
--- object-level totality, engine `orecv`, namespace Flute.Props.C04.Obj
 import FluteModel.Props.C04Obj
+import FluteModel.Props.Ring
+-- parser totality, engine `wire`, namespace Flute.Props.C04.Wire
+-- object-level totality, engine `orecv`, namespace Flute.Props.C04.Obj
 #audit_ns Flute.Props.C04
+-- ring buffer + decompression drain loop (supports the "no hang / no panic" clause: D15, D32)
+#audit_ns Flute.Props.Ring
